@@ -5,6 +5,8 @@
 //!    "block":32768, "bytes":{nin,nout,nerr,wchunk,rchunk}?, "helper":"own|cat|dd|cksum|sh",
 //!    "wstyle":"all|loop", "corrupt":bool?, "expect":{"outcome":"complete|stuck|either", ...}}
 //! The sizes of `prog` are in blocks; `bytes` overrides them with exact byte counts.
+//! kind "pipeline" (not part of the model): `c20_child gated_produce | cat` through
+//! `TryFrom<ChildStdout> for Stdio`.
 //!
 //! For every case a fresh runtime (driver as requested) runs the parent program on its own
 //! thread; a monitor thread watches /proc and decides "stuck" without relying on timing:
@@ -194,7 +196,7 @@ fn expected_out(p: &Prog) -> Expected {
         }
         ("consumer", _) => Expected::Exact(format!("C20SUM len={} bad=-1\n", p.nin).into_bytes()),
         ("producer", "sh") => Expected::Stream(Stream::Seq { letters: false }, p.nout),
-        ("producer", _) => Expected::Stream(Stream::Counter(SALT_OUT), p.nout),
+        ("producer", _) | ("pipeline", _) => Expected::Stream(Stream::Counter(SALT_OUT), p.nout),
         _ => Expected::Stream(Stream::Empty, 0),
     }
 }
@@ -212,11 +214,15 @@ fn sh_status(status: &str) -> String {
     if k == "c" { format!("exit {n}") } else { format!("kill -{n} $$") }
 }
 
-fn build_command(p: &Prog) -> Result<Command, String> {
-    // the small helper binary next to this executable; this executable itself as fall-back
+/// the small helper binary next to this executable; this executable itself as fall-back
+fn helper_exe() -> Result<(std::path::PathBuf, &'static [&'static str]), String> {
     let me = std::env::current_exe().map_err(|e| e.to_string())?;
     let small = me.with_file_name("c20_child");
-    let (exe, pre): (std::path::PathBuf, &[&str]) = if small.exists() { (small, &[]) } else { (me, &["--child"]) };
+    Ok(if small.exists() { (small, &[]) } else { (me, &["--child"]) })
+}
+
+fn build_command(p: &Prog) -> Result<Command, String> {
+    let (exe, pre) = helper_exe()?;
     let gate = if p.gate { "1" } else { "0" };
     let mut cmd;
     match (p.kind.as_str(), p.helper.as_str()) {
@@ -305,6 +311,8 @@ struct Obs {
     wait_released: bool,
     wait_after_kill: bool,
     wait_reaped: Option<bool>,
+    /// pipeline cases: status of the first process
+    wait_first: Option<Result<(Option<i32>, Option<i32>), String>>,
     /// "read returned n but the buffer has length m"
     len_mismatch: Option<String>,
     ops: u64,
@@ -324,6 +332,8 @@ struct Mon {
     gate_wait: AtomicBool,
     finished: AtomicBool,
     pid: AtomicI32,
+    /// second process of a pipeline case
+    pid2: AtomicI32,
     tid: AtomicI32,
     stdin_fd: AtomicI32,
     killed: AtomicBool,
@@ -341,6 +351,7 @@ impl Mon {
             gate_wait: AtomicBool::new(false),
             finished: AtomicBool::new(false),
             pid: AtomicI32::new(0),
+            pid2: AtomicI32::new(0),
             tid: AtomicI32::new(0),
             stdin_fd: AtomicI32::new(-1),
             killed: AtomicBool::new(false),
@@ -371,11 +382,12 @@ impl Mon {
         // order matters: a wait that returns because of this kill must see the flag
         self.killed.store(true, SeqCst);
         *self.kill_time.lock().unwrap() = Some(Instant::now());
-        let pid = self.pid.load(SeqCst);
-        if pid > 0 {
-            unsafe {
-                libc::kill(-pid, libc::SIGKILL);
-                libc::kill(pid, libc::SIGKILL);
+        for pid in [self.pid.load(SeqCst), self.pid2.load(SeqCst)] {
+            if pid > 0 {
+                unsafe {
+                    libc::kill(-pid, libc::SIGKILL);
+                    libc::kill(pid, libc::SIGKILL);
+                }
             }
         }
     }
@@ -645,7 +657,76 @@ async fn gate(pid: i32, m: &Arc<Mon>) {
     m.gate_wait.store(false, SeqCst);
 }
 
+/// `first | cat`: the first child's ChildStdout is converted back into a Stdio and becomes the stdin
+/// of `cat`.  The first child produces only after it was released, so `cat` has to sit in a
+/// blocking read(0) meanwhile - it would fail with EAGAIN if the pipe were handed over in
+/// non-blocking mode.
+async fn pipeline_program(p: Prog, m: Arc<Mon>) {
+    use std::os::unix::process::ExitStatusExt;
+    let fail = |m: &Mon, e: String| m.with(|o| o.error = Some(e));
+    let (exe, pre) = match helper_exe() {
+        Ok(x) => x,
+        Err(e) => return fail(&m, e),
+    };
+    let mut a = Command::new(&exe);
+    a.args(pre).args(["gated_produce", &p.nout.to_string(), "c0"]);
+    a.process_group(0);
+    let _ = a.stdin(Stdio::piped());
+    let _ = a.stdout(Stdio::piped());
+    let _ = a.stderr(Stdio::null());
+    let mut ca = match a.spawn() {
+        Ok(c) => c,
+        Err(e) => return fail(&m, format!("spawn first: {e}")),
+    };
+    let pid_a = ca.id() as i32;
+    m.pid.store(pid_a, SeqCst);
+    let a_stdin = ca.stdin.take().unwrap();
+    let a_stdout = ca.stdout.take().unwrap();
+    let pipe_sz = unsafe { libc::fcntl(a_stdout.as_raw_fd(), libc::F_GETPIPE_SZ) };
+    let mut b = Command::new("cat");
+    b.process_group(0);
+    if b.stdin(a_stdout).is_err() {
+        m.with(|o| o.len_mismatch = Some("ChildStdout could not be converted into a Stdio".into()));
+        return;
+    }
+    let _ = b.stdout(Stdio::piped());
+    let _ = b.stderr(Stdio::piped());
+    let mut cb = match b.spawn() {
+        Ok(c) => c,
+        Err(e) => return fail(&m, format!("spawn cat: {e}")),
+    };
+    let pid_b = cb.id() as i32;
+    m.pid2.store(pid_b, SeqCst);
+    m.with(|o| {
+        o.pid = pid_b;
+        o.pipe_sz = pipe_sz.max(0) as usize;
+        o.pidfd_seen = procfs::has_pidfd_for(pid_b);
+    });
+    let released = Arc::new(AtomicBool::new(false));
+    let ho = compio_runtime::spawn(reader(cb.stdout.take().unwrap(), Which::Out, p.rchunk, m.clone()));
+    let he = compio_runtime::spawn(reader(cb.stderr.take().unwrap(), Which::Err, p.rchunk, m.clone()));
+    let hb = compio_runtime::spawn(waiter(cb, pid_b, released.clone(), m.clone()));
+    let m2 = m.clone();
+    let ha = compio_runtime::spawn(async move {
+        let r = ca.wait().await;
+        m2.with(|o| o.wait_first = Some(r.map(|s| (s.code(), s.signal())).map_err(|e| e.to_string())));
+        m2.tick();
+    });
+    gate(pid_b, &m).await;
+    released.store(true, SeqCst);
+    drop(a_stdin);
+    m.tick();
+    let _ = ho.await;
+    let _ = he.await;
+    let _ = hb.await;
+    let _ = ha.await;
+    m.with(|o| o.finished = true);
+}
+
 async fn parent_program(p: Prog, m: Arc<Mon>) {
+    if p.kind == "pipeline" {
+        return pipeline_program(p, m).await;
+    }
     let mut cmd = match build_command(&p) {
         Ok(c) => c,
         Err(e) => {
@@ -848,17 +929,18 @@ fn run_case(p: &Prog) -> CaseRun {
         let _ = th.join();
     }
     // clean up whatever is left of the child (process group) and reap it if nobody did
-    let pid = m.pid.load(SeqCst);
-    if pid > 0 {
-        unsafe {
-            libc::kill(-pid, libc::SIGKILL);
-            let mut st = 0i32;
-            for _ in 0..200 {
-                let x = libc::waitpid(pid, &mut st, libc::WNOHANG);
-                if x != 0 {
-                    break;
+    for pid in [m.pid.load(SeqCst), m.pid2.load(SeqCst)] {
+        if pid > 0 {
+            unsafe {
+                libc::kill(-pid, libc::SIGKILL);
+                let mut st = 0i32;
+                for _ in 0..200 {
+                    let x = libc::waitpid(pid, &mut st, libc::WNOHANG);
+                    if x != 0 {
+                        break;
+                    }
+                    std::thread::sleep(Duration::from_millis(5));
                 }
-                std::thread::sleep(Duration::from_millis(5));
             }
         }
     }
@@ -993,6 +1075,14 @@ fn judge(case: &Value, p: &Prog, r: &CaseRun) -> Vec<Problem> {
         }
     } else if natural {
         out.push(Problem { ty: "contract", sig: sig(p, "wait_missing", &[]), desc: format!("program finished without a wait result [{class}]") });
+    }
+
+    if p.kind == "pipeline" && natural && o.wait_first != Some(Ok((Some(0), None))) {
+        out.push(Problem {
+            ty: "contract",
+            sig: sig(p, "status", &[("status", json!("first:c0"))]),
+            desc: format!("first process of the pipeline: wait returned {:?}, it ended with c0 [{class}]", o.wait_first),
+        });
     }
 
     // ---- completion
